@@ -3,7 +3,8 @@
 * holds_variant_at: path-sensitive knowledge of *which variant* a Result / Option value holds where it is used
   (`yield x` after `if let Err(e) = &x { .. } else { yield x }` yields an Ok), decided over definitions, discriminant
   tests and is_ok / is_err / is_some / is_none predicates -- never over the spelling of the test.
-* census_sites: lib_c16.panic_sites minus arithmetic assertions that provably cannot fire (lib_c10._sum_of_two_lengths).
+* census_sites: lib_c16.panic_sites minus arithmetic assertions that provably cannot fire (lib_c10._sum_of_two_lengths) and
+  minus full-range indexing `x[..]` (c10._full_range_index).
 * site_cannot_fail: a potential panic site decided by evaluating its function on every input (lib_c07.StrInterp): a lookup in a
   constant table keyed by a field-less enum that has an entry for every variant cannot miss.
 
@@ -143,12 +144,16 @@ def holds_variant_at(fn, op, site, adt, variant):
 
 def census_sites(fn):
     """lib_c16.panic_sites without the overflow assertion of `len(a) + len(b)` (each length is at most isize::MAX:
-    the usize sum cannot wrap, the assertion cannot fire) -- the same exclusion as C10's census."""
+    the usize sum cannot wrap, the assertion cannot fire) and without full-range indexing `x[..]` of a core sequence
+    type (it selects everything) -- the same exclusions as C10's census."""
+    from .c10 import _full_range_index     # the same exclusion as C10's census (imported here: c10 imports lazily from its own helpers)
     out = []
     for kind, what, bucket, bb in panic_sites(fn):
         blk = fn.blocks[bb]
         if kind == "assert" and blk["term"].get("msg") == "Overflow" and _sum_of_two_lengths(fn, blk, blk["term"]):
             continue
+        if kind == "call" and _full_range_index(fn, bb):
+            continue    # `x[..]`: Index<RangeFull> on [T] / [T; N] / str / String / Vec selects everything and cannot be out of bounds
         out.append((kind, what, bucket, bb))
     return out
 
